@@ -41,7 +41,8 @@ class Event:
 class PathSummary:
     def __init__(self):
         self.facts = {}
-        self.order = []       # [(canon, truth)] in path order
+        self.order = []       # [(canon, truth, n events before)] in path order
+        self.order_nodes = []  # aligned: (cfg node, edge label)
         self.events = []
         self.ret = None
         self.ret_node = None
@@ -74,6 +75,23 @@ class PathSummary:
     def index(self, ev):
         return self.events.index(ev)
 
+    def reenters_loop(self, cfg, k):
+        """after the k-th fact of the path was established, can control reach
+        the header of the innermost loop running at that point again?"""
+        node, lab = self.order_nodes[k]
+        header = None
+        for n, l in self.path:
+            if n is node:
+                break
+            if n.kind == 'iter' and l == 'iter':
+                header = n
+            elif n.kind == 'iter' and l == 'exhausted' and n is header:
+                header = None
+        if header is None:
+            return False
+        nxt = [m for m, l in node.succ if l == lab]
+        return any(header.id in cfg.reach(m, include_start=True) for m in nxt)
+
 
 class _Sub(ast.NodeTransformer):
     def __init__(self, env):
@@ -93,13 +111,12 @@ class _Sub(ast.NodeTransformer):
             for n in ast.walk(g.target):
                 if isinstance(n, ast.Name):
                     bound.add(n.id)
-        saved = {k: self.env[k] for k in bound if k in self.env}
-        for k in saved:
-            del self.env[k]
+        outer = self.env
+        self.env = {k: v for k, v in outer.items() if k not in bound}
         try:
             return self.generic_visit(node)
         finally:
-            self.env.update(saved)
+            self.env = outer
 
     visit_ListComp = visit_SetComp = visit_GeneratorExp = visit_DictComp = _comp
 
@@ -135,14 +152,57 @@ def each(it):
     return ast.Call(func=ast.Name(id='EACH', ctx=ast.Load()), args=[it], keywords=[])
 
 
+class Env(dict):
+    """local bindings; every (re)binding of a name gets a fresh version so
+    that two evaluations can be recognised as reading the same value"""
+
+    def __init__(self):
+        dict.__init__(self)
+        self.ver = {}
+        self._n = 0
+
+    def __setitem__(self, k, v):
+        self._n += 1
+        self.ver[k] = self._n
+        dict.__setitem__(self, k, v)
+
+    def pop(self, k, *a):
+        self._n += 1
+        self.ver[k] = self._n
+        return dict.pop(self, k, *a)
+
+    def update(self, other):
+        for k, v in other.items():
+            self[k] = v
+
+    def binding(self, expr):
+        """versions of the local names read by a raw expression"""
+        return tuple(sorted({(n.id, self.ver.get(n.id, 0)) for n in ast.walk(expr)
+                             if isinstance(n, ast.Name)}))
+
+
+def _reflexive(c):
+    """`X is X` / `X == X` for a call-free X"""
+    try:
+        e = ast.parse(c, mode='eval').body
+    except SyntaxError:
+        return False
+    return isinstance(e, ast.Compare) and len(e.ops) == 1 and \
+        isinstance(e.ops[0], ast.Is) and \
+        norm_src(e.left) == norm_src(e.comparators[0]) and _pure(e.left)
+
+
 def summarise(func, limit=6000, to_raise=True):
     cfg = cfg_of(func)
     out = []
     for path in cfg.paths(limit=limit, to_raise=to_raise):
         ps = PathSummary()
         ps.path = path
-        env = {}
+        env = Env()
+        fact_bind = {}
         seen_iters = set()
+        iterated = set()
+        iter_bind = {}
         last = path[-1][0]
         for n, lab in path:
             a = n.ast
@@ -153,10 +213,16 @@ def summarise(func, limit=6000, to_raise=True):
                 c, pol = canon(t, True)
                 if lab in ('T', 'F'):
                     truth = pol if lab == 'T' else (not pol)
-                    if c in ps.facts and ps.facts[c] != truth and _pure(t):
+                    b = env.binding(a)
+                    if c in ps.facts and ps.facts[c] != truth and (
+                            _pure(t) or (_pure(a) and fact_bind.get(c) == b)):
                         ps.infeasible = True
+                    if not truth and _reflexive(c):
+                        ps.infeasible = True
+                    fact_bind[c] = b
                     ps.facts[c] = truth
                     ps.order.append((c, truth, len(ps.events)))
+                    ps.order_nodes.append((n, lab))
                 for x in eval_order(a):
                     if isinstance(x, ast.Call):
                         ps.events.append(Event('call', n, x, subst(x, env)))
@@ -168,7 +234,15 @@ def summarise(func, limit=6000, to_raise=True):
                         if isinstance(x, ast.Call):
                             ps.events.append(Event('call', n, x, subst(x, env)))
                 it = subst(a.iter, env)
+                # a local name iterated twice without rebinding denotes the
+                # same object: the two loops agree on emptiness
+                bind = env.binding(a.iter) if isinstance(a.iter, ast.Name) else None
+                stable = _pure(it) or (bind is not None and
+                                       iter_bind.get('ITER(%s)' % norm_src(it)) == bind)
+                if bind is not None:
+                    iter_bind.setdefault('ITER(%s)' % norm_src(it), bind)
                 if lab == 'iter':
+                    iterated.add(n.id)
                     if isinstance(a.target, ast.Name):
                         env[a.target.id] = each(it) if size(it) < MAX_NODES else None
                     else:
@@ -180,19 +254,20 @@ def summarise(func, limit=6000, to_raise=True):
                                     ctx=ast.Load()) if size(it) < MAX_NODES else None
                                 k += 1
                     c = 'ITER(%s)' % norm_src(it)
-                    if ps.facts.get(c) is False and _pure(it):
+                    if ps.facts.get(c) is False and stable:
                         ps.infeasible = True
                     ps.facts[c] = True
                     ps.order.append((c, True, len(ps.events)))
+                    ps.order_nodes.append((n, lab))
                 elif lab == 'exhausted':
                     c = 'ITER(%s)' % norm_src(it)
-                    if c not in ps.facts:
+                    if n.id not in iterated:
                         # the loop body did not run on this path
-                        if any(k.startswith('ITER(') and k == c and v
-                               for k, v in ps.facts.items()):
-                            pass
-                        ps.facts[c] = False
+                        if ps.facts.get(c) is True and stable:
+                            ps.infeasible = True
+                        ps.facts.setdefault(c, False)
                         ps.order.append((c, False, len(ps.events)))
+                        ps.order_nodes.append((n, lab))
                 continue
             if n.kind != 'stmt':
                 continue
@@ -205,6 +280,7 @@ def summarise(func, limit=6000, to_raise=True):
                 c = 'EXCEPT(%s)' % norm_src(a.type)
                 ps.facts[c] = True
                 ps.order.append((c, True, len(ps.events)))
+                ps.order_nodes.append((n, lab))
                 continue
             # calls in evaluation order, resolved with the environment *before*
             for x in eval_order(h):
